@@ -2,7 +2,7 @@
 /* C07.update_base_search_set: query := percent-encode(input, set) -- query / special-query set chosen by the caller */
 void harness(void) {
   EDITOR_PROLOGUE
-  sv_t input; input.n = nondet_size(); MAKE_SV(input);
+  ND_SV(input);
   uint8_t set[32];
   __CPROVER_assume(BIT_AT(set, '#'));   /* both query sets contain #, so the stored query cannot contain one */
   char ref[3 * BUF_N + 1]; size_t rn = ref_percent_encode(input, set, ref);
